@@ -5,10 +5,11 @@ Property theorems only (helper lemmas: `Proofs/TumblingLate`, `Proofs/WatermarkB
 and every op sequence (arrival orders, bursts with undelivered watermarks, far-future and
 timestamp-less rows, all interleavings of Add with ticker and trigger passes).
 "Inside the allowance" is read per window: the current watermark is below window_end + ALLOWEDLATENESS.
-The sliding window's late-update path is not modelled (its target is chosen by Go map iteration).
+For overlapping (sliding) windows a late row re-delivers every open triggered window that contains it.
 -/
 import SsqlVerif.Proofs.WatermarkBound
 import SsqlVerif.Proofs.TumblingHist
+import SsqlVerif.Proofs.SlidingLate
 import SsqlVerif.Generated.Facts
 set_option autoImplicit false
 
@@ -130,6 +131,27 @@ theorem sliding_no_early_fire (size slide ooo : Int) (hs : 0 < size) (hl : 0 < s
     have h1 := hh.hbefore c hc e he
     have h2 := (hh.hshape e he).2.1
     exact ⟨y, hy, by omega⟩
+
+/-- **Sliding late update (ALLOWEDLATENESS > 0).** Every result an Add produces is the re-delivery of
+an open triggered window that contains the (late) row — same interval, the window's previous
+contents first, then rows of the interval not yet in them, the late row included — … -/
+theorem sliding_late_update_contents (s : SlidingLate.SWL) (r : Tumbling.Row) (now : Int) :
+    ∀ e ∈ (SlidingLate.stepAdd s r now none).2, ∃ f ∈ s.fired,
+      e.kind = .late ∧ e.start = f.start ∧ e.stop = f.start + s.base.size ∧
+      Tumbling.inSlot s.base.size f.start r = true ∧
+      Tumbling.stillOpen (Sliding.wmAfter s.base r now).cur f = true ∧
+      Sliding.lateNow s.base r now = true ∧ 0 < s.lateness ∧
+      (∃ extra, e.rows = f.snap ++ extra ∧
+        (∀ x ∈ extra, Tumbling.inSlot s.base.size f.start x = true ∧ x ∉ f.snap) ∧ (r ∈ f.snap ∨ r ∈ extra)) :=
+  SlidingLate.late_emissions s r now none
+
+/-- … and every open triggered window that contains a late row is re-delivered. -/
+theorem sliding_every_open_window_redelivered (s : SlidingLate.SWL) (r : Tumbling.Row) (now : Int)
+    (hl : Sliding.lateNow s.base r now = true) (hlat : 0 < s.lateness)
+    (f : Tumbling.Fired) (hf : f ∈ s.fired) (hin : Tumbling.inSlot s.base.size f.start r = true)
+    (hop : Tumbling.stillOpen (Sliding.wmAfter s.base r now).cur f = true) :
+    ∃ e ∈ (SlidingLate.stepAdd s r now none).2, e.start = f.start ∧ e.kind = .late :=
+  SlidingLate.every_open_window_redelivered s r now none hl hlat f hf hin hop
 
 end sliding
 
